@@ -154,33 +154,28 @@ func (rm *RegistrationManager) ingestRegistration(reg *DecoyRegistration) {
 		return
 	}
 
-	if rm.RegistrationExists(reg) {
-		// log phantom IP, shared secret, ipv6 support
-		logger.Debugf("Duplicate registration: %v %s\n", reg.IDString(), reg.RegistrationSource)
-		Stat().AddDupReg()
-		rm.AddDupReg()
-
-		// Track the received registration, if it is already tracked
-		// it will just update the record
-		err := rm.TrackRegistration(reg)
-		if err != nil {
-			logger.Errorln("error tracking registration: ", err)
-			Stat().AddErrReg()
-			rm.AddErrReg()
-		}
-		return
-	}
-
-	// log phantom IP, shared secret, ipv6 support
-	logger.Debugf("New registration: %s %v\n", reg.IDString(), reg.String())
-
-	// Track the received registration
-	err := rm.TrackRegistration(reg)
+	// Check and track in one critical section. With a separate check and track, two workers
+	// handling the same registration (same secret, transport and phantom) could both find it
+	// untracked; the second Track then only counted a duplicate on the first worker's object, and
+	// the second worker went on to validate that object - whose covert address it never checked.
+	exists, err := rm.TrackRegIfNotExists(reg)
 	if err != nil {
 		logger.Errorln("error tracking registration: ", err)
 		Stat().AddErrReg()
 		rm.AddErrReg()
 	}
+	if exists {
+		// log phantom IP, shared secret, ipv6 support
+		logger.Debugf("Duplicate registration: %v %s\n", reg.IDString(), reg.RegistrationSource)
+		Stat().AddDupReg()
+		rm.AddDupReg()
+		// (the duplicate was counted on the tracked record by TrackRegIfNotExists; tracking it
+		// again here could re-create, unvalidated, a registration the sweeper just removed)
+		return
+	}
+
+	// log phantom IP, shared secret, ipv6 support
+	logger.Debugf("New registration: %s %v\n", reg.IDString(), reg.String())
 
 	// If registration is trying to connect to a covert address that
 	// is blocklisted consider registration INVALID and continue
